@@ -225,8 +225,13 @@ def main(argv):
         [("cas", ("k", b"v", b"notanumber"), {}), ("set", ("k", b"v"), {"noreply": False}), ("gets", ("k",), {}), ("get_many", (["k", "z"],), {})],
         [("set", ("k", b""), {"noreply": False}), ("__getitem__", ("k",), {}), ("__setitem__", ("j", b"0"), {}), ("__getitem__", ("j",), {}), ("__delitem__", ("j",), {}), ("__getitem__", ("j",), {})],
     ]
-    for hi, hist in enumerate(H):
+    # with a serializer a stored value may legitimately be None, 0, '' or an empty container: a hit, not a miss
+    HS = [[("set", ("k", val_), {"noreply": False}), ("get", ("k",), {"default": "DEFAULT-MARKER"}), ("get", ("k", "POSITIONAL-DEFAULT"), {}), ("gets", ("k",), {}),
+           ("get_many", (["k", "zz"],), {}), ("get", ("zz",), {"default": "DEFAULT-MARKER"})] for val_ in (None, 0, "", [], False, {"a": None})]
+    for hi, hist in enumerate(H + HS):
         for cfgi, kw in enumerate(({"default_noreply": False}, {"default_noreply": True, "key_prefix": b"p:"})):
+            if hi >= len(H):
+                kw = dict(kw, serde=serde.PickleSerde())
             ref = None
             for sname, mk in ST:
                 if sname.startswith("HashClient") and any(op.startswith("__") for op, _, _ in hist):
